@@ -613,11 +613,11 @@ def c09(tier, seed):
     for u in range(39):
         for pre in ((0, 1, 4) if tier == "quick" else (0, 1, 2, 3, 4, 5, 6)):
             for holes in (0, 1):
-                jobs.append(job("HRepeatSqli", [u, holes, K, pre, PB, SL], safety=True, witness_every=50, max_witness=1))
+                jobs.append(job("HRepeatSqli", [u, holes, K, pre, PB, SL], safety=True, witness_every=50, max_witness=1, maxsteps=60000000))
     for u in range(37):
         for pre in ((0, 1, 4) if tier == "quick" else (0, 1, 2, 3, 4, 5, 6)):
             for holes in ((0, 1) if pre < 4 else (0,)):  # inside a URL attribute value a free byte multiplies the decoder's paths by the repetition count
-                jobs.append(job("HRepeatXss", [u, holes, K, pre, PB, SL], safety=True, witness_every=50, max_witness=1))
+                jobs.append(job("HRepeatXss", [u, holes, K, pre, PB, SL], safety=True, witness_every=50, max_witness=1, maxsteps=60000000))
     c.run_group("T-families", COST, jobs, expect_labels=["checked"], confirm=confirm)
     jobs = []
     for which in range(6):
